@@ -57,6 +57,14 @@ def body(crate, bid):
 def closure_of(crate, fn_id):
     b = body(crate, fn_id)
     cl = [c for c in b.closures]
+    if not cl:
+        # the closure written as a named function of the table and passed by path (`with_borrow_mut(SlotTable::alloc_fresh)`)
+        for c in b.calls:
+            if c.callee and c.callee.name in ("with_borrow_mut", "with", "with_borrow") and not b.blocks[c.bb]["cleanup"]:
+                for a in c.args:
+                    for x in role_walk(b.role_of_operand(a)):
+                        if isinstance(x, tuple) and x[0] == "fnconst" and str(x[1]) in crate.bodies and (crate.bodies[str(x[1])].file or "").endswith(SLOTF):
+                            cl.append(crate.bodies[str(x[1])])
     if len(cl) != 1:
         raise mir.AnchorMissing("the with_borrow_mut closure of " + fn_id, "found %d closures" % len(cl))
     return cl[0]
@@ -579,7 +587,9 @@ def o7(ctx):
             continue
         tpl, arg = found
         ctx.check(tpl == pieces, "display-literals:%d" % res, "residue %d prints template %s (%s)" % (res, tpl, why), "residue %d prints template %s, expected %s (%s)" % (res, tpl, pieces, why), where_of(d))
-        ctx.check(expr in arg and (res != 2 or slot_table(crate)["vec"] in arg), "display-decoding:%d" % res, "residue %d decodes with %s" % (res, expr), "residue %d decodes with %s, expected %s" % (res, arg, expr), where_of(d))
+        # (u - r) / 4 == u / 4 for u = 4k + r, r < 4: the payload may be taken once, before the tag is looked at
+        alt_ = "(self.0 Div const 4_u32)"
+        ctx.check((expr in arg or alt_ in arg) and (res != 2 or slot_table(crate)["vec"] in arg), "display-decoding:%d" % res, "residue %d decodes with %s" % (res, expr), "residue %d decodes with %s, expected %s" % (res, arg, expr), where_of(d))
     # the tokenizer hands `$name` without the `$` to Slot::named
     tk = [b for b in crate.free_fn("tokenize") if (b.file or "").endswith("parse.rs")]
     if tk:
